@@ -9,7 +9,7 @@ Import ListNotations.
 Require Import MV.Model.PySem MV.Spec.Types MV.Model.LinkSel MV.Gen.Src MV.Gen.SrcPlan MV.Gen.SrcOpt MV.Gen.TypeTables
   MV.Proofs.SrcTieP.
 Require MV.Model.Orch MV.Model.Naming MV.Model.ChainParser MV.Model.PlannerA MV.Model.PlannerL MV.Model.PyObj.
-Require MV.Model.Options MV.Model.PyObjOpt.
+Require MV.Model.Options MV.Model.PyObjOpt MV.Spec.OptionsSpec.
 
 (* ---------------- C18: mloda/core/abstract_plugins/components/index/index.py ---------------- *)
 (* Index.is_a_part_of_ never raises (the t[i] it contains stays in range) and is the model C18_index_prefix is about *)
@@ -262,6 +262,38 @@ Theorem SrcTie_merge_options_model : forall s child,
 Proof. exact merge_options_model. Qed.
 Print Assumptions SrcTie_merge_options_model.
 
+(* validators/options_validator.py  the two conflict checks of update_with_protected_keys *)
+Theorem SrcTie_validate_no_group_context_conflicts : forall a b,
+  OptionsValidator_validate_no_group_context_conflicts a b
+  = if existsb (fun k => Options.kmem k b) a then Raise ValueError else Ok tt.
+Proof. exact validate_no_group_context_conflicts_src. Qed.
+Print Assumptions SrcTie_validate_no_group_context_conflicts.
+
+Theorem SrcTie_validate_no_context_group_conflicts : forall a b,
+  OptionsValidator_validate_no_context_group_conflicts a b
+  = if existsb (fun k => Options.kmem k b) a then Raise ValueError else Ok tt.
+Proof. exact validate_no_context_group_conflicts_src. Qed.
+Print Assumptions SrcTie_validate_no_context_group_conflicts.
+
+(* components/options.py  Options.update_with_protected_keys (default argument, `Set[str] | None` re-bound in the None branch,
+   `for key in <Any>`, dict.copy, del, dict comprehension with a filter, `k in d and d[k] != v`, dict.update) IS Options.o_update:
+   the object left behind AND the exception, for every state, every other Options whose group is a dict (pairwise different
+   keys) and every order in which the value under feature_chainer_parser_key and the set of protected keys are iterated (ord: any
+   function that returns the same keys) *)
+Theorem SrcTie_update_with_protected_keys : forall ord, (forall site l k, Options.kmem k (ord site l) = Options.kmem k l) ->
+  forall s other prot, OptionsSpec.nodupk (Options.dkeys (Options.og other)) ->
+  Options_update_with_protected_keys ord s other prot = PyObjOpt.of_oerr (Options.o_update other prot s).
+Proof. exact update_with_protected_keys_src. Qed.
+Print Assumptions SrcTie_update_with_protected_keys.
+
+(* merge_options with the callee it really calls: update_with_protected_keys(child) with the default argument *)
+Theorem SrcTie_merge_options_full : forall ord, (forall site l k, Options.kmem k (ord site l) = Options.kmem k l) ->
+  forall s child, OptionsSpec.nodupk (Options.dkeys (Options.og child)) ->
+  Features_merge_options (fun fo co => Options_update_with_protected_keys ord fo co None) s child
+  = PyObjOpt.of_oerr (Options.o_merge child s).
+Proof. exact merge_options_full. Qed.
+Print Assumptions SrcTie_merge_options_full.
+
 (* non-vacuity: the regenerated definitions compute, on both sides of each decision *)
 Example SrcTie_examples :
   Index_is_a_part_of_ ["a"%string] ["a"%string; "b"%string] = Ok true /\
@@ -309,5 +341,8 @@ Example SrcTie_opt_examples :
   fst (Features_merge_options update_model (parent [(Options.k_chainer, Options.VList [Options.VStr "a"])]) child) = Ok tt /\
   Options_get (parent []) a = Ok (Options.VInt 1) /\
   fst (Options_add (parent []) a (Options.VInt 2)) = Raise ValueError /\
-  fst (Options_add (parent []) a (Options.VBool true)) = Ok tt.
+  fst (Options_add (parent []) a (Options.VBool true)) = Ok tt /\
+  (* update with protected key a: the child's a is not merged; without: it replaces the parent's *)
+  Options.og (snd (Options_update_with_protected_keys (fun _ l => l) (parent []) child (Some [a]))) = [(a, Options.VInt 1)] /\
+  Options.og (snd (Options_update_with_protected_keys (fun _ l => rev l) (parent []) child None)) = [(a, Options.VInt 2)].
 Proof. vm_compute. repeat split. Qed.
